@@ -18,6 +18,49 @@ import C02
 UNIFYING = ('make_literal', 'make_template_id')
 
 
+def scenarios(tier, seed):
+    obs = []
+    # specific scenarios
+    if '-I' + os.path.join(VERIF, 'drivers') not in ipv.CLANG_ARGS:
+        ipv.CLANG_ARGS.append('-I' + os.path.join(VERIF, 'drivers'))
+    SC = dict(parameters=['a name looked up earlier still yields the same overload set after more members were added', 'new members go at the end; earlier members keep their index', 'an earlier member reads as before', 'members are distinct objects'],
+              token_location=['a token keeps the location it was given after the client changed its own location object', 'a token reports the spelling, value and category it was given'],
+              unified=['the same request returns the node obtained earlier, whatever was requested in between', 'the node obtained earlier reads as before'],
+              redeclaration=['a declaration obtained earlier keeps its master, name, type and position when it is redeclared', 'a primary template obtained earlier still reports itself as the primary template after it is redeclared', 'the redeclaration joins the earlier declaration\'s declaration-set at its end'])
+    sn = {'st_' + k: 'drv::st_' + k for k in SC}
+    su = Unit('scenarios', 'drivers/stability.cxx', roots=sorted(sn.values()), names=sn)
+    def mksgen(k):
+        def gen(unit):
+            fn = unit.by_name[unit.resolve_name('st_' + k)]
+            ret, cname, cps = F.cparams(fn['sig'])
+            t = F.PRELUDE_C + F.ext_models(unit) + 'void h_st_%s(void)\n{\n' % k
+            args = []
+            pooled = F.pooled_type_and_forall(cps)
+            if pooled:
+                t += pooled[0]
+            for i, (ct, pn) in enumerate(cps):
+                if pooled and pn in pooled[1]:
+                    args.append(pn); continue
+                if k == 'unified' and pn in ('v_t', 'v_u'):
+                    # operand types from one array: their address order (what the tables' comparators look at) is fixed, so the real
+                    # red-black inserts run on constants; tree shapes for arbitrary orders are C08's business
+                    if pn == 'v_t':
+                        t += '  static %s type_pool[2];\n' % ct[:-1].strip()
+                    t += '  %s %s = &type_pool[%d];\n' % (ct, pn, 0 if pn == 'v_t' else 1)
+                else:
+                    t += ('  %s %s = NEWZ(%s);\n' % (ct, pn, ct[:-1].strip())) if 'Lexicon' in ct else F.operand_decl(ct, pn, i)
+                args.append(pn)
+            t += '  unsigned bad = %s(%s);\n' % (cname, ', '.join(args))
+            for b, text_ in enumerate(SC[k]):
+                t += '  __CPROVER_assert(!(bad & %du), "C05 %s: %s");\n' % (1 << b, k.replace('_', ' '), text_)
+            return t + '  IPR_CANARY_POINT();\n}\n', [], dict(scenario=k)
+        return gen
+    for k in SC:
+        o = Ob('C05.scenario.' + k, su, None, 'h_st_' + k, 'stability scenario: ' + k.replace('_', ' '), kind='K1', replay='C05', timeout=240, flags=['--unwind', '12'], objbits=12)
+        o.gen = mksgen(k); obs.append(o)
+    return [su], obs, {}
+
+
 def build(tier, seed):
     work = os.path.join(BUILD, 'gen', 'C05'); os.makedirs(work, exist_ok=True)
     recs = F.catalogue(work)
@@ -89,38 +132,8 @@ def build(tier, seed):
                    kind='K1', replay='C05', timeout=600, flags=['--unwind', '12'], objbits=12)
             o.gen = mkgen(f); obs.append(o)
     ntwo = len(obs)
-    # specific scenarios
-    if '-I' + os.path.join(VERIF, 'drivers') not in ipv.CLANG_ARGS:
-        ipv.CLANG_ARGS.append('-I' + os.path.join(VERIF, 'drivers'))
-    SC = dict(parameters=['a name looked up earlier still yields the same overload set after more members were added', 'new members go at the end; earlier members keep their index', 'an earlier member reads as before', 'members are distinct objects'],
-              token_location=['a token keeps the location it was given after the client changed its own location object', 'a token reports the spelling, value and category it was given'],
-              unified=['the same request returns the node obtained earlier, whatever was requested in between', 'the node obtained earlier reads as before'])
-    sn = {'st_' + k: 'drv::st_' + k for k in SC}
-    su = Unit('scenarios', 'drivers/stability.cxx', roots=sorted(sn.values()), names=sn)
-    def mksgen(k):
-        def gen(unit):
-            fn = unit.by_name[unit.resolve_name('st_' + k)]
-            ret, cname, cps = F.cparams(fn['sig'])
-            t = F.PRELUDE_C + F.ext_models(unit) + 'void h_st_%s(void)\n{\n' % k
-            args = []
-            for i, (ct, pn) in enumerate(cps):
-                if k == 'unified' and pn in ('v_t', 'v_u'):
-                    # operand types from one array: their address order (what the tables' comparators look at) is fixed, so the real
-                    # red-black inserts run on constants; tree shapes for arbitrary orders are C08's business
-                    if pn == 'v_t':
-                        t += '  static %s type_pool[2];\n' % ct[:-1].strip()
-                    t += '  %s %s = &type_pool[%d];\n' % (ct, pn, 0 if pn == 'v_t' else 1)
-                else:
-                    t += ('  %s %s = NEWZ(%s);\n' % (ct, pn, ct[:-1].strip())) if 'Lexicon' in ct else F.operand_decl(ct, pn, i)
-                args.append(pn)
-            t += '  unsigned bad = %s(%s);\n' % (cname, ', '.join(args))
-            for b, text_ in enumerate(SC[k]):
-                t += '  __CPROVER_assert(!(bad & %du), "C05 %s: %s");\n' % (1 << b, k.replace('_', ' '), text_)
-            return t + '  IPR_CANARY_POINT();\n}\n', [], dict(scenario=k)
-        return gen
-    for k in SC:
-        o = Ob('C05.scenario.' + k, su, None, 'h_st_' + k, 'stability scenario: ' + k.replace('_', ' '), kind='K1', replay='C05', timeout=600, flags=['--unwind', '12'], objbits=12)
-        o.gen = mksgen(k); obs.append(o)
+    su_l, so_l, _ = scenarios(tier, seed)
+    su = su_l[0]; obs += so_l; sn = dict(su.names)
     # frames proved for other properties
     import C03, C08, C04
     extra_units, extra_obs = [], []
